@@ -463,6 +463,8 @@ impl Context {
                 self.proc.set_state(task.state());
                 if let Some(err) = task.err() {
                     self.proc.set_err(&err);
+                    // the task event above has written the row before the error was known
+                    let _ = self.runtime.cache().store().upsert_proc(&self.proc);
                 }
                 self.runtime.scher().emit_proc_event(&self.proc);
             }
